@@ -73,6 +73,28 @@ var allPaths = []string{"<nil>", "<empty>", "a", "a/b", "*", "meta", "meta/sync"
 var fewPaths = []string{"a", "meta/sync", "<empty>", "<nil>"}
 
 func mkv(s string) *pb.TypedValue {
+	if k := strings.Index(s, "#"); k > 0 {
+		var n int
+		fmt.Sscanf(s[k+1:], "%d", &n)
+		switch s[:k] {
+		case "leaflist", "strlist":
+			var es []*pb.TypedValue
+			for x := 0; x < n; x++ {
+				if s[:k] == "strlist" {
+					es = append(es, &pb.TypedValue{Value: &pb.TypedValue_StringVal{StringVal: fmt.Sprintf("member-%d", x)}})
+				} else {
+					es = append(es, &pb.TypedValue{Value: &pb.TypedValue_IntVal{IntVal: int64(x)}})
+				}
+			}
+			return &pb.TypedValue{Value: &pb.TypedValue_LeaflistVal{LeaflistVal: &pb.ScalarArray{Element: es}}}
+		case "jsonarray":
+			var es []string
+			for x := 0; x < n; x++ {
+				es = append(es, fmt.Sprint(x))
+			}
+			return &pb.TypedValue{Value: &pb.TypedValue_JsonVal{JsonVal: []byte("[" + strings.Join(es, ",") + "]")}}
+		}
+	}
 	switch s {
 	case "<nil>":
 		return nil
@@ -565,6 +587,21 @@ func (s *stub) Subscribe(ctx context.Context, opts ...grpc.CallOption) (pb.GNMI_
 
 var lazyConn *grpc.ClientConn
 
+// specDisplaySizes: list values of 0..8 elements (leaf-lists and JSON arrays)
+// through every display type: formatting code with a fast path for "small"
+// lists has its boundaries inside this range.
+func specDisplaySizes() seqmc.Spec {
+	alpha := []respSpec{{kind: "sync"}}
+	var seqs [][]int
+	for n := 0; n <= 8; n++ {
+		for _, k := range []string{"leaflist", "jsonarray", "strlist"} {
+			alpha = append(alpha, respSpec{"update", "a", fmt.Sprintf("%s#%d", k, n)})
+			seqs = append(seqs, []int{len(alpha) - 1, 0}, []int{len(alpha) - 1, len(alpha) - 1, 0})
+		}
+	}
+	return specDisplayOver(fmt.Sprintf("client receive + CLI display of list values with 0..8 elements (leaf-lists of ints / strings, JSON arrays): %d response sequences x 4 display types x once/poll/stream x timestamp on/off", len(seqs)), alpha, seqs)
+}
+
 func specDisplay(maxLen int) seqmc.Spec {
 	alpha := respAlphabet()
 	var seqs [][]int
@@ -587,11 +624,15 @@ func specDisplay(maxLen int) seqmc.Spec {
 			seqs = append(seqs, []int{i, i}, []int{i, i, syncI})
 		}
 	}
+	return specDisplayOver(fmt.Sprintf("client receive + CLI display: %d response sequences x 4 display types x once/poll/stream x timestamp on/off", len(seqs)), alpha, seqs)
+}
+
+func specDisplayOver(name string, alpha []respSpec, seqs [][]int) seqmc.Spec {
 	displays := []string{"group", "single", "proto", "shortproto"}
 	types := []client.Type{client.Once, client.Poll, client.Stream}
 	tsModes := []string{"", "on"}
 	n := len(seqs) * len(displays) * len(types) * len(tsModes)
-	return seqmc.Spec{Name: fmt.Sprintf("client receive + CLI display: %d response sequences x 4 display types x once/poll/stream x timestamp on/off", len(seqs)), N: n, Run: func(i int) (string, bool, []seqmc.Violation) {
+	return seqmc.Spec{Name: name, N: n, Run: func(i int) (string, bool, []seqmc.Violation) {
 		tm := tsModes[i%len(tsModes)]
 		i /= len(tsModes)
 		qt := types[i%len(types)]
@@ -782,6 +823,7 @@ func (harness) Specs(tier string) []seqmc.Spec {
 			specDisplay(2),
 			specDisplayHistories(),
 		specResubscribe(),
+		specDisplaySizes(),
 		}
 	}
 	return []seqmc.Spec{
@@ -791,6 +833,7 @@ func (harness) Specs(tier string) []seqmc.Spec {
 		specDisplay(2),
 		specDisplayHistories(),
 		specResubscribe(),
+		specDisplaySizes(),
 	}
 }
 
